@@ -236,6 +236,11 @@ func droppedErrors(u *Universe, rels []string) []nilFieldSite {
 // ruleErrDrop: in the functions the property owns (the functions its must-call table names), no error of a module
 // call, a dynamic call or a strconv / encoding/json / os call is dropped
 func ruleErrDrop(c *Ctx, u *Universe, prop string) {
+	ruleErrDropOwned(c, u, prop, nil)
+}
+
+// ruleErrDropOwned: the same with further owned functions (by name as given by u.fname)
+func ruleErrDropOwned(c *Ctx, u *Universe, prop string, extra func(fname string) bool) {
 	R := c.R
 	var table []mustCallEntry
 	var allow map[string]string
@@ -259,7 +264,7 @@ func ruleErrDrop(c *Ctx, u *Universe, prop string) {
 		if i := strings.Index(root, "$"); i >= 0 {
 			root = root[:i]
 		}
-		if !owned[d.Fn] && !owned[root] {
+		if !owned[d.Fn] && !owned[root] && (extra == nil || !extra(root)) {
 			continue
 		}
 		n++
